@@ -7,8 +7,10 @@ pub async fn on_did_change_watched_files(
     context: ServerContextSnapshot,
     params: DidChangeWatchedFilesParams,
 ) -> Option<()> {
-    let workspace = context.workspace_manager().read().await;
+    // lock order: analysis before workspace_manager, as the request handlers do
+    // (the opposite nesting here closed a cycle with them once a writer was queued)
     let mut analysis = context.analysis().write().await;
+    let workspace = context.workspace_manager().read().await;
     let emmyrc = analysis.get_emmyrc();
     let encoding = &emmyrc.workspace.encoding;
     let interval = emmyrc.diagnostics.diagnostic_interval.unwrap_or(500);
@@ -47,11 +49,9 @@ pub async fn on_did_change_watched_files(
                     continue;
                 }
                 let config_path = uri_to_file_path(&file_event.uri).unwrap();
-                context
-                    .workspace_manager()
-                    .read()
-                    .await
-                    .add_update_emmyrc_task(context.clone(), config_path);
+                // use the guard already held: re-acquiring the read lock deadlocks as
+                // soon as a writer is queued in between
+                workspace.add_update_emmyrc_task(context.clone(), config_path);
             }
             None => {}
         }
